@@ -53,6 +53,8 @@ type FuncContract struct {
 	MayPanic  bool
 	NoSafety  bool
 	Pure      bool
+	NoOverflow bool
+	NilRecv   bool
 	Props     []string
 	Havoc     []string // extra heap keys (prefixes) to havoc at calls
 	Verify    bool     // has clauses that need the body to be verified
@@ -308,6 +310,10 @@ func (C *Contracts) parseFile(pkg, file, src string) {
 					curF.NoSafety = true
 				case "pure":
 					curF.Pure = true
+				case "nooverflow":
+					curF.NoOverflow = true
+				case "nilrecv":
+					curF.NilRecv = true
 				default:
 					C.errorf("%s: unknown option %q", where, o)
 				}
